@@ -24,6 +24,7 @@ DOC = {
  "C13.R5": "replace_worker: takes only the in-flight map, does not touch the queue except through get_next_non_expired_job, and always (every path) tries to dispatch the queue head; dispatch_job's SendErr arm pushes the returned job to the front",
  "C13.R6": "siblings agree: the five route_message bodies (choose -> enqueue | Backlog(job)); the two supervision arms of the factory; the limiter wrapper returns RateLimited(job) without consulting the inner router",
  "C13.R7": "worker_complete dispatches the next job only when the completion matched an in-flight key; worker_finished_job retires a draining worker only if it is not working, otherwise keeps it; routes more work only to non-draining workers",
+ "C13.R8": "= C15.R5: Drained only when all of pool.values() (unfiltered) are available and the queue is empty; the factory stops itself only on is_drained()",
 }
 
 JOB = r"^ractor::factory::job::Job<"
@@ -374,7 +375,13 @@ def r7(run, db):
 
 Q = ["dflt"]
 TH = ["dflt", "rc", "atr", "astd"]
-RULES = [{"id": "C13.R%d" % i, "fn": f, "quick": Q, "thorough": TH} for i, f in enumerate([r1, r2, r3, r4, r5, r6, r7], 1)]
+def r8(run, db):
+    """= C15.R5: the factory stops itself only when drained, and drained means every worker still in the pool is idle"""
+    from . import c15
+    c15.r5(run, db)
+
+
+RULES = [{"id": "C13.R%d" % i, "fn": f, "quick": Q, "thorough": TH} for i, f in enumerate([r1, r2, r3, r4, r5, r6, r7, r8], 1)]
 from .etype import witness_rule
 RULES.append({"id": "C13.W", "fn": witness_rule(['W4JobNoClone', 'W6JobMoved']), "quick": [], "thorough": [], "no_db": True})
 DOC["C13.W"] = 'E-TYPE witnesses W4 (Job::clone is E0599) and W6 (use of a job after moving it into a dispatch message is E0382)'
